@@ -951,8 +951,23 @@ class Variable(CanBehaveLikeAVariable[T]):
             yield from self._yield_from_cache_or_instantiate_new_values_(sources)
 
     def _generate_combinations_for_child_vars_values_(self, sources: Optional[Dict[int, HashedValue]] = None):
-        kwargs_generators = {k: v._evaluate__(sources) for k, v in self._child_vars_.items()}
-        yield from generate_combinations(kwargs_generators)
+        yield from self._bind_child_vars_(list(self._child_vars_.items()), sources or {}, {})
+
+    def _bind_child_vars_(self, child_vars: List[Tuple[str, SymbolicExpression]], bindings: Dict[int, HashedValue],
+                          kwargs: Dict[str, Dict[int, HashedValue]]) -> Iterable[Dict[str, Dict[int, HashedValue]]]:
+        """
+        Evaluate the child variables one after the other, each under the bindings made by the previous ones, such
+        that arguments that share a variable take their values from the same binding of it, and unrelated ones
+        are combined freely.
+        """
+        if not child_vars:
+            yield kwargs
+            return
+        (name, var), remaining_child_vars = child_vars[0], child_vars[1:]
+        for value in var._evaluate__(copy(bindings)):
+            new_bindings = copy(bindings)
+            new_bindings.update(value)
+            yield from self._bind_child_vars_(remaining_child_vars, new_bindings, {**kwargs, name: value})
 
     def _yield_from_cache_or_instantiate_new_values_(self, sources: Optional[Dict[int, HashedValue]] = None,
                                                      kwargs: Dict[str, Dict[int, HashedValue]] = None):
